@@ -101,7 +101,7 @@ func VerifC12_WirePutGet() {
 	if len(p.val) == 2 {
 		verifFill(p.val)
 	}
-	p.seq = []int64{0, 5}[verifChoice(0, 1)]
+	p.seq = []int64{0, 5, -3}[verifChoice(0, 2)]
 	if verifNondetBool() {
 		verifFill(p.k[:])
 		verifAssume(p.k != [32]byte{})
@@ -148,7 +148,11 @@ func VerifC12_WirePutGet() {
 
 // C13 at the wire: a stored mutable item at seq 5; get naming a sequence number receives the value only
 // if the stored one is newer; a second put obeys the seq / cas rules with the right error codes.
-func VerifC13_WireSeq() {
+func VerifC13_WireSeq()     { verifC13WireSeq(5, true) }
+func VerifC13_WireNegSeq()  { verifC13WireSeq(-2, false) }
+func VerifC13_WireNegSeq2() { verifC13WireSeq(-2, true) }
+
+func verifC13WireSeq(base int64, secondPut bool) {
 	verifLimiterAlwaysGrants()
 	v := verifStartServer(verifSrvOpt{noSecurity: true, concreteID: true})
 	verifFixTokenClock(v.s)
@@ -159,30 +163,39 @@ func VerifC13_WireSeq() {
 	verifAssume(p.k != [32]byte{})
 	verifFill(p.sig[:])
 	p.val = []byte("v1")
-	p.seq = 5
+	// the stored sequence number: a usual one, or a negative one (any signed 64-bit value is a valid seq)
+	p.seq = base
 	verifAssume(p.verifies())
 	verifTargetInBucket0(v, p.target())
 	r1 := verifWirePut(v, from, p, true)
 	verifAssert(r1 != nil && r1.Y == "r", "C13: the first put is stored")
-	// get with a sequence number
+	// get with or without a sequence number
 	named := verifNondetI64()
-	g := verifWireGet(v, from, p.target(), &named)
+	seqp := &named
+	if verifNondetBool() {
+		seqp = nil // the ordinary get
+	}
+	g := verifWireGet(v, from, p.target(), seqp)
 	if g == nil || g.R == nil {
 		verifFail("C13: get is answered")
 		return
 	}
-	verifAssert(g.R.Seq != nil && *g.R.Seq == 5, "C13: get reports the stored sequence number")
-	if named >= 5 {
+	verifAssert(g.R.Seq != nil && *g.R.Seq == base, "C13: get reports the stored sequence number")
+	if seqp != nil && named >= base {
 		verifAssert(len(g.R.V) == 0, "C13: a get that names a sequence number is sent the value only if the stored one is newer")
 		verifReach("withheld")
 	} else {
-		verifAssert(verifBytesEq(g.R.V, verifBencStr(p.val)), "C13: ... and is sent it when the stored one is newer")
+		verifAssert(verifBytesEq(g.R.V, verifBencStr(p.val)), "C13: a get that names no sequence number, or an older one than the stored, is sent the value")
 		verifReach("sent")
 	}
-	// second put: seq from {4,5,6}, cas from {0,5,9}, same or different value, correctly signed
+	if !secondPut {
+		verifReach("end")
+		return
+	}
+	// second put: seq from {s-1,s,s+1}, cas from {0,s,9}, same or different value, correctly signed
 	q := p
-	q.seq = []int64{4, 5, 6}[verifChoice(0, 2)]
-	q.cas = []int64{0, 5, 9}[verifChoice(0, 2)]
+	q.seq = base - 1 + int64(verifChoice(0, 2))
+	q.cas = []int64{0, base, 9}[verifChoice(0, 2)]
 	if verifNondetBool() {
 		q.val = []byte("v2")
 	}
@@ -194,19 +207,19 @@ func VerifC13_WireSeq() {
 	}
 	want := 0
 	switch {
-	case q.cas != 0 && q.cas != 5:
+	case q.cas != 0 && q.cas != base:
 		want = 301
-	case q.seq < 5, q.seq == 5 && string(q.val) != "v1":
+	case q.seq < base, q.seq == base && string(q.val) != "v1":
 		want = 302
 	}
 	verifAssert(verifErrCode(r2) == want && (want != 0 || r2.Y == "r"), "C13: a later put is accepted or refused with 301/302 by the BEP 44 rule")
 	g2 := verifWireGet(v, from, p.target(), nil)
 	if g2 != nil && g2.R != nil && g2.R.Seq != nil {
-		verifAssert(*g2.R.Seq >= 5, "C13: the stored sequence number never decreases")
+		verifAssert(*g2.R.Seq >= base, "C13: the stored sequence number never decreases")
 		if want == 0 {
 			verifAssert(*g2.R.Seq == q.seq && verifBytesEq(g2.R.V, verifBencStr(q.val)), "C13: an accepted put is what later gets return")
 		} else {
-			verifAssert(*g2.R.Seq == 5 && verifBytesEq(g2.R.V, verifBencStr(p.val)), "C13: a refused put leaves the stored item in place")
+			verifAssert(*g2.R.Seq == base && verifBytesEq(g2.R.V, verifBencStr(p.val)), "C13: a refused put leaves the stored item in place")
 		}
 	}
 	verifReach("end")
